@@ -599,6 +599,17 @@ class Analyzer:
         callee = self.resolve(f.attr, start_after=self._method.cls)
       if callee is not None and (self.modifies(callee) or any(isinstance(n, ast.Raise) for n in ast.walk(callee.node))):
         return self.apply(callee, c, st, node)
+    elif isinstance(f, ast.Name):
+      # a function defined inside the method that uses `self` (a closure over the object): not modelled
+      try:
+        meth = self._method.node
+      except AttributeError:
+        meth = None
+      if meth is not None:
+        for d_ in ast.walk(meth):
+          if isinstance(d_, (ast.FunctionDef, ast.Lambda)) and d_ is not meth and getattr(d_, 'name', None) == f.id and \
+             any(isinstance(x, ast.Name) and x.id == 'self' for x in ast.walk(d_)):
+            st.problems.append((node, 'call of the local function %s, which works on self, is not followed' % f.id))
     return [Path(st, 'fall', None)]
 
   def apply(self, callee, call, st, node):
